@@ -23,17 +23,17 @@ type sval struct {
 }
 
 type env struct {
-	g       *gen
-	st      *state
-	old     *env
-	names   map[string]sval
-	lookup  func(name string) (sval, bool)
-	results []sval
-	resNames []string
-	lets    map[string]ast.Expr
-	phiVal  func(*ssa.Phi) string
+	g         *gen
+	st        *state
+	old       *env
+	names     map[string]sval
+	lookup    func(name string) (sval, bool)
+	results   []sval
+	resNames  []string
+	lets      map[string]ast.Expr
+	phiVal    func(*ssa.Phi) string
 	freshBase string // allocation mark that fresh() is relative to (default: function entry)
-	letBusy map[string]bool
+	letBusy   map[string]bool
 }
 
 func (e *env) child() *env {
@@ -45,7 +45,9 @@ func (e *env) child() *env {
 	return &n
 }
 
-func (g *gen) goVal(t string, ty types.Type) sval { return sval{t: t, gt: ty, sort: g.sorts.sortOf(ty)} }
+func (g *gen) goVal(t string, ty types.Type) sval {
+	return sval{t: t, gt: ty, sort: g.sorts.sortOf(ty)}
+}
 
 var tInt = types.Typ[types.Int]
 var tBool = types.Typ[types.Bool]
@@ -595,6 +597,15 @@ func (g *gen) specCall(e *env, n *ast.CallExpr) sval {
 			return sval{t: v, gt: tInt, sort: "Int"}
 		}
 		return sval{t: "0", gt: tInt, sort: "Int"}
+	case "resultOf":
+		// resultOf(NAME): the (first) result of the latest call named NAME this function has executed (ghost;
+		// unconstrained on a path without such a call)
+		id, ok := n.Args[0].(*ast.Ident)
+		if !ok || g.resultNamed[id.Name] == nil {
+			g.specFail(n, "resultOf(NAME): no call of that name returns a value here")
+		}
+		ty := g.resultNamed[id.Name]
+		return g.goVal(g.heapVar(e.st, "GHOST.result."+id.Name, g.sorts.sortOf(ty)), ty)
 	case "allnodes":
 		// allnodes(n, body): body holds for every allocated document node n (n ranges over *CandidateNode)
 		if len(n.Args) != 2 {
